@@ -223,7 +223,7 @@ Print Assumptions C18_source_iterators_are_the_modelled_ones.
    inner iterator's items and stop their own loop; that the inner one stops is its own theorem.) *)
 From Bio.gen Require ImpGen.
 From Bio.Model Require GoSem.
-From Bio.Proofs Require ImpProofs ImpProofsI ImpProofsJ ImpProofsK ImpProofsL ImpProofsQ ImpProofsR ImpProofsU.
+From Bio.Proofs Require ImpProofs ImpProofsI ImpProofsJ ImpProofsK ImpProofsL ImpProofsQ ImpProofsR ImpProofsU ImpProofsW.
 
 Theorem C18_canonical_stop_is_source : forall p s k, ImpProofs.all_bytes s ->
   ImpGen.imp_sequtil_CanonicalSubsequences_stop p s k
@@ -288,6 +288,14 @@ Theorem C18_traverse_stop_is_source : forall p fuel pre t l, (2 * Newick.size t 
   = GoSem.Ret (ImpProofsU.take_stop p (map ImpProofsI.nd l)).
 Proof. exact ImpProofsU.imp_traverse_stop_ok. Qed.
 Print Assumptions C18_traverse_stop_is_source.
+
+Theorem C18_pre_post_order_stop_is_source : forall p fuel t, (2 * Newick.size t + 2 < fuel)%nat ->
+  ImpGen.imp_newick_Node_PreOrder_stop p fuel (ImpProofsI.node_of t)
+  = GoSem.Ret (ImpProofsU.take_stop p (map ImpProofsI.nd (NewickSpec.preorder t)))
+  /\ ImpGen.imp_newick_Node_PostOrder_stop p fuel (ImpProofsI.node_of t)
+     = GoSem.Ret (ImpProofsU.take_stop p (map ImpProofsI.nd (NewickSpec.postorder t))).
+Proof. exact ImpProofsW.pre_post_order_stop_src. Qed.
+Print Assumptions C18_pre_post_order_stop_is_source.
 
 Example C18_source_stop_example :
   ImpGen.imp_sequtil_CanonicalSubsequences_stop 2 (bs "ACGTT") 2 = GoSem.Ret [bs "AC"; bs "CG"]
